@@ -212,7 +212,10 @@ func drawC14Parse(t *rapid.T) c14ParseCase {
 	case 9:
 		s = rapid.String().Draw(t, "any")
 	case 10:
-		s = []string{"", " ", "user_notif", "kill", "unknown", "0", "0x7fff0000", "2147418112", "allow\n", "ALLOW ", "tsync", "Equal|NotEqual", "=="}[rapid.IntRange(0, 12).Draw(t, "fixed")]
+		s = c14Dictionary[rapid.IntRange(0, len(c14Dictionary)-1).Draw(t, "fixed")]
+		if rapid.Bool().Draw(t, "upper") {
+			s = strings.ToUpper(s)
+		}
 	case 11:
 		// unicode look-alikes and special-casing characters
 		repl := map[string]string{"k": "K", "i": "İ", "s": "ſ", "a": "а", "e": "е", "o": "о"}
@@ -225,6 +228,70 @@ func drawC14Parse(t *rapid.T) c14ParseCase {
 		}
 	}
 	return c14ParseCase{Kind: kind, Input: s}
+}
+
+// c14Dictionary: strings that are NOT documented names but that a parser could plausibly have been taught as aliases
+// (synonyms, the kernel's and libseccomp's spellings, Go identifier names, numbers, symbols, neighbouring vocabulary).
+// None of them may parse (those that are a documented name in another letter case are judged as such by the check).
+var c14Dictionary = func() []string {
+	d := []string{"", " ", "\t", "\n", "allow\n", "ALLOW ", " allow", "allow\x00", "\x00",
+		// synonyms of actions
+		"permit", "permitted", "pass", "accept", "allowed", "ok", "yes", "true", "none", "default", "any", "all", "*",
+		"deny", "denied", "block", "drop", "reject", "forbid", "refuse", "false", "no", "fail", "error", "eperm", "enosys",
+		"kill", "killed", "die", "abort", "sigsys", "sigkill", "terminate", "kill-thread", "kill-process", "killthread",
+		"killprocess", "kill_proc", "kill_threads", "kill_all", "thread", "process", "notify", "user_notif", "notif",
+		"audit", "logging", "logged", "warn", "tracer", "ptrace", "traced", "signal", "trap_", "traps", "errno_", "errnos",
+		"errno(1)", "errno:1", "errno=1", "errno 1", "allow,log", "allow|log", "log+allow", "unknown", "invalid", "undefined",
+		// the kernel's, libseccomp's and OCI's spellings
+		"SECCOMP_RET_ALLOW", "SECCOMP_RET_ERRNO", "SECCOMP_RET_KILL", "SECCOMP_RET_KILL_THREAD", "SECCOMP_RET_KILL_PROCESS",
+		"SECCOMP_RET_TRAP", "SECCOMP_RET_TRACE", "SECCOMP_RET_LOG", "SECCOMP_RET_USER_NOTIF", "RET_ALLOW", "ret_allow",
+		"SCMP_ACT_ALLOW", "SCMP_ACT_ERRNO", "SCMP_ACT_KILL", "SCMP_ACT_KILL_THREAD", "SCMP_ACT_KILL_PROCESS", "SCMP_ACT_TRAP",
+		"SCMP_ACT_TRACE", "SCMP_ACT_LOG", "SCMP_ACT_NOTIFY", "ACT_ALLOW", "act_allow",
+		"SCMP_CMP_NE", "SCMP_CMP_LT", "SCMP_CMP_LE", "SCMP_CMP_EQ", "SCMP_CMP_GE", "SCMP_CMP_GT", "SCMP_CMP_MASKED_EQ",
+		// Go identifiers of the package
+		"ActionAllow", "ActionErrno", "ActionKillThread", "ActionKillProcess", "ActionTrap", "ActionTrace", "ActionLog",
+		"Action", "Operation", "seccomp.ActionAllow", "seccomp.Equal", "FilterFlagTSync", "tsync", "FilterFlagLog",
+		// numbers
+		"0", "1", "2", "-1", "0x0", "0x7fff0000", "2147418112", "0x00050001", "327681", "0x80000000", "2147483648",
+		"0x00030000", "0x7ffc0000", "0x7ff00000", "0x00050000", "7fff0000", "0X7FFF0000", "0b0", "0o0", "1e0", "NaN",
+		// operation aliases and symbols
+		"eq", "ne", "neq", "lt", "le", "lte", "gt", "ge", "gte", "equal", "equals", "notequal", "not_equal", "not-equal",
+		"not equal", "less", "lessthan", "less_than", "lessorequal", "less_or_equal", "lessequal", "greater", "greaterthan",
+		"greater_than", "greaterorequal", "greater_or_equal", "greaterequal", "bitsset", "bits_set", "bitsnotset",
+		"bits_not_set", "bitset", "bitnotset", "bits", "mask", "masked", "masked_eq", "maskedequal", "and", "nand", "or", "not",
+		"==", "=", "!=", "<>", "<", "<=", ">", ">=", "=<", "=>", "&", "!&", "&!", "&=", "&==0", "&!=0", "~", "!", "in", "is",
+		"Equal|NotEqual", "Equal,NotEqual", "Equal ", " Equal", "Equal\n", "Equals", "NotEquals", "LessThen", "GreaterThen",
+		"LessOrEquals", "GreaterOrEquals", "BitSet", "BitNotSet", "BitsUnset", "BitsClear", "BitsNotSet ", "Set", "NotSet",
+		// arguments / other vocabulary of the configuration
+		"arg0", "argument", "value", "syscalls", "names", "default_action", "action", "names_with_args", "null", "nil", "~",
+	}
+	// one-edit neighbours of the documented names: each with its first/last letter dropped or doubled and with the
+	// underscore dropped
+	for _, n := range append([]string{"kill_thread", "kill_process", "trap", "errno", "trace", "log", "allow"}, spec.Ops...) {
+		d = append(d, n[1:], n[:len(n)-1], n+n[len(n)-1:], n[:1]+n, strings.ReplaceAll(n, "_", ""), n+"s", n+"ed", "no"+n, "not"+n, "!"+n, n+"!")
+	}
+	return d
+}()
+
+// Every dictionary word, for both parsers, as written, lower-cased, upper-cased and capitalised.
+func TestC14ParserDictionary(t *testing.T) {
+	ev.Register("C14", "parse", checkC14Parse)
+	n := 0
+	for _, w := range c14Dictionary {
+		forms := []string{w, strings.ToLower(w), strings.ToUpper(w)}
+		if len(w) > 1 {
+			forms = append(forms, strings.ToUpper(w[:1])+strings.ToLower(w[1:]))
+		}
+		for _, f := range forms {
+			for _, kind := range []string{"action", "operation"} {
+				n++
+				if !ev.CheckOne(t, "C14", "parse", c14ParseCase{Kind: kind, Input: f}, checkC14Parse) {
+					return
+				}
+			}
+		}
+	}
+	ev.Exhaustive("C14", "alias dictionary x 4 letter cases x both parsers", n)
 }
 
 func TestC14Parsers(t *testing.T) {
